@@ -298,22 +298,19 @@ func (env *Env) object(obj types.Object) Value {
 }
 
 func (env *Env) importedPkg(name string) *types.Package {
-	if env.pkg == nil {
-		return nil
-	}
-	for _, p := range env.pkg.Imports() {
-		if p.Name() == name {
-			return p
+	if env.pkg != nil {
+		for _, p := range env.pkg.Imports() {
+			if p.Name() == name {
+				return p
+			}
 		}
 	}
 	// well-known aliases used in /repo
 	alias := map[string]string{"v1proto": "github.com/jrhy/s3db/proto/v1", "crdtpub": "github.com/jrhy/s3db/kv/crdt",
 		"s3Persist": "github.com/jrhy/mast/persist/s3", "sqlTypes": "github.com/jrhy/s3db/sql/types"}
 	if path, ok := alias[name]; ok {
-		for _, p := range env.pkg.Imports() {
-			if p.Path() == path {
-				return p
-			}
+		if p := env.x.v.typesPkg(path); p != nil {
+			return p
 		}
 	}
 	if p := env.x.v.pkgByName(name); p != nil {
